@@ -23,6 +23,11 @@ every return value (Driver/Sched.lean, flag `conc-model-agrees`).
 The store has no per-key lock: two mutators of ONE key that overlap are not serialised (known finding D17);
 the model reproduces what the code then does (Update error, lost Put, double free), and the theorems of
 Sth/Props/C05.lean are stated for executions in which mutators of one key do not overlap.
+One thing the exact-key index of this model does NOT show outside that premise: the losing mutator's late Index.Update /
+Index.Remove acts on a key that is absent by then, and at the record-list level a lookup of an absent key can hit a neighbour
+whose stored prefix matches (C08_absent), whose entry is then re-pointed or removed (observed on the real code; the driver
+therefore compares this model with the code only on schedules without overlapping mutators of one key, and records a
+difference on the others as a flag).
 Garbage collection is not part of this model (locations are never recycled here; C06, known finding D18).
 -/
 namespace Sth.Conc
